@@ -197,6 +197,7 @@ func (b *Batch) Commit() error {
 	logRecord := b.db.recordPool.Get().(*datafile.LogRecord)
 	logRecord.Key = append(logRecord.Key, b.batchID.Bytes()...)
 	logRecord.Type = datafile.LogRecordBatchFinished
+	logRecord.BatchID = uint64(b.batchID)
 	_, err = b.db.activeFile.WriteLogRecord(logRecord, b.db.logRecordHeader)
 	b.db.putRecordToPool(logRecord)
 	if err != nil {
